@@ -208,8 +208,9 @@ class Ctx:
             'violations': int(n_viol),
             'known_findings_reported': list(self.known_lines),
         }
-        os.makedirs(os.path.join(ROOT, 'evidence'), exist_ok=True)
-        path = os.path.join(ROOT, 'evidence', self.pid + '.json')
+        evdir = os.environ.get('VMC_EVIDENCE_DIR') or os.path.join(ROOT, 'evidence')   # scratch dir for seeded-change runs
+        os.makedirs(evdir, exist_ok=True)
+        path = os.path.join(evdir, self.pid + '.json')
         tmp = path + '.tmp'
         with open(tmp, 'w') as f:
             json.dump(ev, f, indent=1, sort_keys=True)
